@@ -1085,6 +1085,130 @@ Proof.
 Qed.
 
 (* ========================================================================================== *)
+(* D'. the fuel of the model's loops is always enough (for every stream and configuration)       *)
+
+Lemma sock_read_total : forall n s,
+  match fst (sock_read n s) with
+  | Some bs => length bs = n /\ total s = n + total (snd (sock_read n s))
+  | None => total (snd (sock_read n s)) = 0
+  end.
+Proof.
+  intros n s. unfold total.
+  destruct (le_lt_dec n (length (concat s))) as [L|L].
+  - destruct (sockread_chunking_lemma s n L) as [r [E C]]. rewrite E. cbn [fst snd].
+    rewrite C, firstn_length_le, skipn_length by exact L. lia.
+  - rewrite (sock_read_short s n L). reflexivity.
+Qed.
+
+Lemma sock_read_total_le : forall n s, total (snd (sock_read n s)) <= total s.
+Proof.
+  intros n s. pose proof (sock_read_total n s) as H.
+  destruct (fst (sock_read n s)); lia.
+Qed.
+
+Lemma pre_loop_total : forall fuel p racc offs s,
+  total (snd (pre_loop fuel p racc offs s)) <= total s.
+Proof.
+  induction fuel as [|f IH]; intros p racc offs s; cbn [pre_loop]; [cbn [snd]; lia|].
+  pose proof (sock_read_total_le 1 s) as T.
+  destruct (sock_read 1 s) as [[[|bt [|b2 l]]|] s']; cbn [snd] in *; try exact T.
+  destruct (negb (isdigit bt) && negb (bt =? SOH)%N); cbn [snd]; [exact T|].
+  destruct (p_max p <=? offs); cbn [snd]; [exact T|].
+  destruct (negb (bt =? SOH)%N && (S offs <? p_max p)); cbn [snd]; [|exact T].
+  specialize (IH p (bt :: racc) (S offs) s'). lia.
+Qed.
+
+Lemma pre_loop_no_fuel : forall fuel p racc offs s,
+  1 <= fuel -> p_max p - offs <= fuel -> fst (pre_loop fuel p racc offs s) <> PFuel.
+Proof.
+  induction fuel as [|f IH]; intros p racc offs s L1 L2; [lia|].
+  cbn [pre_loop].
+  destruct (sock_read 1 s) as [[[|bt [|b2 l]]|] s']; cbn [fst]; try discriminate.
+  destruct (negb (isdigit bt) && negb (bt =? SOH)%N); cbn [fst]; [discriminate|].
+  destruct (p_max p <=? offs); cbn [fst]; [discriminate|].
+  destruct (negb (bt =? SOH)%N && (S offs <? p_max p)) eqn:E; cbn [fst]; [|discriminate].
+  apply andb_true_iff in E. destruct E as [_ E]. apply Nat.ltb_lt in E.
+  apply IH; lia.
+Qed.
+
+Lemma read_body_total : forall p to mlen s,
+  total (snd (read_body p to mlen s)) <= total s /\ fst (read_body p to mlen s) <> OFuel.
+Proof.
+  intros p to mlen s. unfold read_body.
+  destruct ((mlen =? 0)%N || (len_limit p <? mlen)%N); [cbn [fst snd]; split; [lia|discriminate]|].
+  destruct (p_max p <? N.to_nat mlen + chksum_sz); [cbn [fst snd]; split; [lia|discriminate]|].
+  pose proof (sock_read_total_le (N.to_nat mlen) s) as T1.
+  destruct (sock_read (N.to_nat mlen) s) as [[body|] s3]; cbn [snd] in T1; [|cbn [fst snd]; split; [lia|discriminate]].
+  pose proof (sock_read_total_le chksum_sz s3) as T2.
+  destruct (sock_read chksum_sz s3) as [[chk|] s4]; cbn [fst snd] in *; split; try lia; discriminate.
+Qed.
+
+Lemma read_fields_total : forall p to s,
+  total (snd (read_fields p to s)) <= total s /\ fst (read_fields p to s) <> OFuel.
+Proof.
+  intros p to s. unfold read_fields.
+  destruct (extract_element p to) as [st|r1 tag1 val1]; [cbn [fst snd]; split; [lia|discriminate]|].
+  destruct (r1 =? 0); [cbn [fst snd]; split; [lia|discriminate]|].
+  destruct (negb (head_is tag1 56%N)); [cbn [fst snd]; split; [lia|discriminate]|].
+  destruct (negb (list_eqb (cstr val1) (p_begin p))); [cbn [fst snd]; split; [lia|discriminate]|].
+  destruct (extract_element p (skipn r1 to)) as [st|r2 tag2 val2]; [cbn [fst snd]; split; [lia|discriminate]|].
+  destruct (r2 =? 0); [cbn [fst snd]; split; [lia|discriminate]|].
+  destruct (negb (head_is tag2 57%N)); [cbn [fst snd]; split; [lia|discriminate]|].
+  apply read_body_total.
+Qed.
+
+Lemma bg_pos : forall p, 6 <= bg_sz p.
+Proof. intros p. unfold bg_sz. lia. Qed.
+
+(* one call of read never runs out of fuel, and a call that hands a message on has consumed bytes *)
+Lemma read_msg_total : forall p s,
+  fst (read_msg p s) <> OFuel /\
+  (forall m, fst (read_msg p s) = OMsg m -> total (snd (read_msg p s)) < total s).
+Proof.
+  intros p s. unfold read_msg. pose proof (bg_pos p) as B.
+  pose proof (sock_read_total (bg_sz p) s) as T.
+  destruct (sock_read (bg_sz p) s) as [[pre|] s1]; cbn [fst snd] in T; [|cbn [fst]; split; [discriminate|intros; discriminate]].
+  destruct T as [_ T].
+  destruct (p_max p <? bg_sz p) eqn:E0; [cbn [fst]; split; [discriminate|intros; discriminate]|].
+  apply Nat.ltb_ge in E0.
+  pose proof (pre_loop_total (p_max p) p (rev pre) (bg_sz p) s1) as T2.
+  pose proof (pre_loop_no_fuel (p_max p) p (rev pre) (bg_sz p) s1 ltac:(lia) ltac:(lia)) as NF.
+  destruct (pre_loop (p_max p) p (rev pre) (bg_sz p) s1) as [r s2]. cbn [fst snd] in T2, NF.
+  destruct r as [to| |buf| |]; cbn [fst snd]; try (split; [discriminate|intros; discriminate]).
+  - destruct (read_fields_total p to s2) as [T3 NF3]. split; [exact NF3|]. intros m _. lia.
+  - congruence.
+Qed.
+
+Lemma read_all_never_msg : forall fuel p s m, snd (read_all fuel p s) <> OMsg m.
+Proof.
+  induction fuel as [|f IH]; intros p s m; cbn [read_all]; [cbn; discriminate|].
+  destruct (read_msg p s) as [o s'] eqn:E.
+  destruct o; cbn [snd]; try discriminate.
+  specialize (IH p s' m). destruct (read_all f p s'). cbn [snd] in *. exact IH.
+Qed.
+
+Lemma read_all_fuel_enough : forall fuel p s, total s < fuel -> snd (read_all fuel p s) <> OFuel.
+Proof.
+  induction fuel as [|f IH]; intros p s L; [lia|].
+  cbn [read_all].
+  destruct (read_msg_total p s) as [NF Dec].
+  destruct (read_msg p s) as [o s']. cbn [fst snd] in NF, Dec.
+  destruct o; cbn [snd]; try discriminate; try congruence.
+  specialize (Dec m eq_refl). specialize (IH p s' ltac:(lia)).
+  destruct (read_all f p s'). cbn [snd] in *. exact IH.
+Qed.
+
+Lemma fuel_enough_lemma : forall p chunks closed, snd (run p chunks closed) <> EOther.
+Proof.
+  intros p chunks closed. unfold run.
+  pose proof (read_all_fuel_enough (S (total chunks)) p chunks ltac:(lia)) as NF.
+  pose proof (read_all_never_msg (S (total chunks)) p chunks) as NM.
+  destruct (read_all (S (total chunks)) p chunks) as [d o]. cbn [snd] in *.
+  destruct o; cbn [ending_of]; try discriminate; try congruence;
+    try (exfalso; eapply NM; reflexivity); destruct closed; discriminate.
+Qed.
+
+(* ========================================================================================== *)
 (* E. where the faithful model violates the property: witnesses                               *)
 
 From Coq Require Import String Ascii.
